@@ -106,6 +106,16 @@ def array_spec(draw, min_dims=0, max_dims=4, min_size=0, max_size=4, kinds="ifs"
     return spec
 
 
+@st.composite
+def position_list(draw, n, min_size=1, max_size=4):
+    """positions in [-n, n-1]: arbitrary (with repeats), or a run of consecutive positions possibly counted from the end or
+    crossing zero ([-2, -1], [-1, 0, 1]) - what an implementation may be tempted to turn into a slice"""
+    if n >= 2 and max_size >= 2 and draw(st.integers(0, 3)) == 0:
+        start = draw(st.integers(-n, n - 2))
+        return list(range(start, min(start + draw(st.integers(2, min(3, max_size))), n)))
+    return draw(st.lists(st.integers(-n, n - 1), min_size=min_size, max_size=max_size))
+
+
 def absent_label(labs, kind, where, k=0):
     """a label of the same kind that is not on the axis: below / between / above the existing ones"""
     if kind == "s":
